@@ -141,32 +141,32 @@ class ReconfDomain(Domain):
 
     def attr_store(self, objval, node, value, state):
         if is_self_attr(node, "hasher"):
-            return state.set("hasher_clean", True)
+            return state.set("#hasher_clean", True)
         if is_self_attr(node, "clients"):
-            return state.set("clients_cleared", True)
+            return state.set("#clients_cleared", True)
         return state
 
     def _ev(self, state, e):
-        return state.set("ev", state.get("ev", ()) + (e,))
+        return state.set("#ev", state.get("#ev", ()) + (e,))
 
     def call(self, node, fval, args, kwargs, state):
         name = call_name(node)
         if name == "self.clients.copy" or (name in ("dict", "list") and args and args[0] == Opaque("self.clients")):
-            return [("ok", Opaque("snapshot"), state.set("snapshot_before_clear", not state.get("clients_cleared", False)))]
+            return [("ok", Opaque("snapshot"), state.set("#snapshot_before_clear", not state.get("#clients_cleared", False)))]
         if name == "self.clients.clear":
-            return [("ok", NONE, state.set("clients_cleared", True))]
+            return [("ok", NONE, state.set("#clients_cleared", True))]
         if name == "self._failed_clients.clear":
-            return [("ok", NONE, state.set("failed_cleared", True))]
+            return [("ok", NONE, state.set("#failed_cleared", True))]
         if name == "self._dead_clients.clear":
-            return [("ok", NONE, state.set("dead_cleared", True))]
+            return [("ok", NONE, state.set("#dead_cleared", True))]
         if name == "self.hasher.remove_node":
-            it = state.get("iterating", None)
+            it = state.get("#iterating", None)
             st = state
             if it == "snapshot" and args and args[0] == Opaque("snapshot-elem"):
-                st = st.set("hasher_clean", True)
+                st = st.set("#hasher_clean", True)
             return [("ok", NONE, st), ("exc", Exc(ORD, "ValueError", node.lineno), st)]
         if name in ("self.hasher.nodes.clear",):
-            return [("ok", NONE, state.set("hasher_clean", True))]
+            return [("ok", NONE, state.set("#hasher_clean", True))]
         if name == "self._get_nodes_list":
             return [("ok", Opaque("advertised"), state), ("exc", Exc(ORD, None, node.lineno), state)]
         if name == "normalize_server_spec":
@@ -174,20 +174,20 @@ class ReconfDomain(Domain):
         if name == "self.add_server":
             a = args[0] if args else None
             st = state
-            if not (state.get("clients_cleared", False) and state.get("hasher_clean", False)):
-                self.problems.append(("add-before-rotation-reset", "a node is added while %s: keys keep being routed to nodes that are no longer advertised (the hasher, not the clients dict, decides where keys go), and operations on them fail with KeyError" % ("the old node names are still in the hasher" if not state.get("hasher_clean", False) else "self.clients still holds the old clients"), node))
-            if not state.get("dead_cleared", False) or not state.get("failed_cleared", False):
+            if not (state.get("#clients_cleared", False) and state.get("#hasher_clean", False)):
+                self.problems.append(("add-before-rotation-reset", "a node is added while %s: keys keep being routed to nodes that are no longer advertised (the hasher, not the clients dict, decides where keys go), and operations on them fail with KeyError" % ("the old node names are still in the hasher" if not state.get("#hasher_clean", False) else "self.clients still holds the old clients"), node))
+            if not state.get("#dead_cleared", False) or not state.get("#failed_cleared", False):
                 self.problems.append(("add-before-failover-reset", "nodes are added while the dead/failing bookkeeping of the previous configuration is kept: an evicted old node is brought back into rotation later by the dead-server scan although it is no longer advertised", node))
             ok_arg = isinstance(a, tuple) and a and a[0] == "normalized" and a[1] == Opaque("advertised-elem")
             if not ok_arg:
                 self.problems.append(("add-unnormalised", "add_server is not given normalize_server_spec(<advertised node>)", node))
-            if state.get("guarded", 0):
-                self.problems.append(("conditional-add", "an advertised node is added only under a condition (`%s`): a node that is advertised but, e.g., was evicted as dead or already known is not put (back) into rotation" % state.get("guard_src", "?"), node))
+            if state.get("#guarded", 0):
+                self.problems.append(("conditional-add", "an advertised node is added only under a condition (`%s`): a node that is advertised but, e.g., was evicted as dead or already known is not put (back) into rotation" % state.get("#guard_src", "?"), node))
             return [("ok", NONE, self._ev(st, "add")), ("exc", Exc(ORD, None, node.lineno), st)]
         if isinstance(node.func, ast.Attribute) and node.func.attr == "close":
             recv = node.func.value
             if isinstance(recv, ast.Name) and state.get(recv.id, None) == Opaque("snapshot-value"):
-                return [("ok", NONE, state.set("closed_old", True))]
+                return [("ok", NONE, state.set("#closed_old", True))]
             return [("ok", NONE, state)]
         if name in ("old_clients.values", "old_clients.items", "old_clients.keys") or (isinstance(node.func, ast.Attribute) and node.func.attr in ("values", "items", "keys") and isinstance(node.func.value, ast.Name) and state.get(node.func.value.id, None) == Opaque("snapshot")):
             return [("ok", Opaque("snapshot-" + node.func.attr), state)]
@@ -199,29 +199,29 @@ class ReconfDomain(Domain):
             return []
         st = state.set(key, True)
         if itval == Opaque("snapshot") or itval == Opaque("snapshot-keys"):
-            return [(Opaque("snapshot-elem"), st.set("iterating", "snapshot"))]
+            return [(Opaque("snapshot-elem"), st.set("#iterating", "snapshot"))]
         if itval == Opaque("snapshot-values"):
-            return [(Opaque("snapshot-value"), st.set("iterating", "snapshot-values"))]
+            return [(Opaque("snapshot-value"), st.set("#iterating", "snapshot-values"))]
         if itval == Opaque("snapshot-items"):
-            return [(TupleV((Opaque("snapshot-elem"), Opaque("snapshot-value"))), st.set("iterating", "snapshot"))]
+            return [(TupleV((Opaque("snapshot-elem"), Opaque("snapshot-value"))), st.set("#iterating", "snapshot"))]
         if itval == Opaque("advertised"):
-            return [(Opaque("advertised-elem"), st.set("iterating", "advertised"))]
+            return [(Opaque("advertised-elem"), st.set("#iterating", "advertised"))]
         return [(TOP, st)]
 
     def for_exhausted(self, node, itval, state):
         if isinstance(itval, Opaque) and (itval.tag.startswith("snapshot") or itval.tag == "advertised") and not state.get(("visited", node.lineno), False):
             return None
-        return state.drop("iterating") if state.has("iterating") else state
+        return state.drop("#iterating") if state.has("#iterating") else state
 
     def assume(self, expr, value, branch, state):
         # any branch inside the loop over the advertised nodes guards what follows
-        if state.get("iterating", None) == "advertised":
-            return state.set("guarded", state.get("guarded", 0) + 1).set("guard_src", node_src(expr, 60))
+        if state.get("#iterating", None) == "advertised":
+            return state.set("#guarded", state.get("#guarded", 0) + 1).set("#guard_src", node_src(expr, 60))
         return state
 
     def refine_compare(self, node, op, lexpr, l, rexpr, r, branch, state):
-        if state.get("iterating", None) == "advertised":
-            return state.set("guarded", state.get("guarded", 0) + 1).set("guard_src", node_src(node, 60))
+        if state.get("#iterating", None) == "advertised":
+            return state.set("#guarded", state.get("#guarded", 0) + 1).set("#guard_src", node_src(node, 60))
         return state
 
 
@@ -230,15 +230,15 @@ class CloseDomain(Domain):
 
     def close_value(self, obj, item, state):
         if obj == Opaque("discovery-client"):
-            return state.set("closed", True)
+            return state.set("#closed", True)
         return state
 
     def call(self, node, fval, args, kwargs, state):
         name = call_name(node)
         if name in ("Client", "self.client_class"):
-            return [("ok", Opaque("discovery-client"), state.set("created", True)), ("exc", Exc(ORD, None, node.lineno), state)]
+            return [("ok", Opaque("discovery-client"), state.set("#created", True)), ("exc", Exc(ORD, None, node.lineno), state)]
         if isinstance(node.func, ast.Attribute) and node.func.attr == "close" and isinstance(node.func.value, ast.Name) and state.get(node.func.value.id, None) == Opaque("discovery-client"):
-            return [("ok", NONE, state.set("closed", True))]
+            return [("ok", NONE, state.set("#closed", True))]
         if name.startswith("logger."):
             return [("ok", NONE, state)]
         return [("ok", TOP, state), ("exc", Exc(ORD, None, node.lineno), state)]
@@ -254,7 +254,7 @@ class DiscoveryDomain(ExactCollections, Domain):
     async_enabled = False
     subscript_may_raise = False
     unpack_may_raise = False
-    global_keys = ("log", "imprecise")
+    global_keys = ("#log", "#imprecise")
 
     def __init__(self, prog, fn, use_vpc, reply):
         super().__init__(prog, fn)
@@ -262,7 +262,7 @@ class DiscoveryDomain(ExactCollections, Domain):
         self.reply = reply
 
     def mark_imprecise(self, state, node):
-        return state.set("imprecise", 1)
+        return state.set("#imprecise", 1)
 
     def name_load(self, name, state, node=None):
         if state.has(name):
@@ -310,13 +310,13 @@ class DiscoveryDomain(ExactCollections, Domain):
                 ep = lower_value(srv)
             except NotConcrete:
                 ep = str(srv)
-            return [("ok", Opaque("cfg-client"), state.set("log", state.get("log", ()) + (("client", ep),)))]
+            return [("ok", Opaque("cfg-client"), state.set("#log", state.get("#log", ()) + (("client", ep),)))]
         if isinstance(fval, tuple) and fval and fval[0] == "client-meth":
             if fval[1] == "raw_command":
                 cmd = args[0] if args else kwargs.get("command", TOP)
                 et = args[1] if len(args) > 1 else kwargs.get("end_tokens", Const(None))
                 rec = ("command", (cmd.v if isinstance(cmd, Const) else str(cmd), et.v if isinstance(et, Const) else str(et)))
-                return [("ok", Const(self.reply), state.set("log", state.get("log", ()) + (rec,)))]
+                return [("ok", Const(self.reply), state.set("#log", state.get("#log", ()) + (rec,)))]
             return [("ok", NONE, state)]
         if isinstance(fval, tuple) and fval and fval[0] == "cmeth":
             r = fold_method(fval[1], fval[2], args, kwargs, node.lineno)
@@ -377,7 +377,7 @@ def discovery_rows(prog, gnl):
             rets = outs.of("ret")
             vals = set()
             for s_, v, t in rets:
-                log = s_.get("log", ())
+                log = s_.get("#log", ())
                 info.append({"command": next((x[1] for x in log if x[0] == "command"), None) if sum(1 for x in log if x[0] == "command") == 1 else tuple(x[1] for x in log if x[0] == "command"), "endpoint": next((x[1] for x in log if x[0] == "client"), None)})
                 try:
                     vals.add(lower_value(deref(v, s_)))
@@ -427,7 +427,7 @@ def run(chk):
     # ------------------------------------------------------------------ R2 coupled rotation state
     r2 = chk.rule("C19.R2", "reconfigure_nodes: on every path the old nodes leave self.clients, the hasher and the failover bookkeeping before any advertised node is added; every advertised node is added, unconditionally and normalised")
     dom = ReconfDomain(prog, rn)
-    outs = Interp(dom, rn.node, prog).run(Env({"ev": ()}))
+    outs = Interp(dom, rn.node, prog).run(Env({"#ev": ()}))
     seen = set()
     for construct, msg, node in dom.problems:
         if construct in seen:
@@ -436,10 +436,10 @@ def run(chk):
         r2.fail("AWSElastiCacheHashClient.reconfigure_nodes:%s" % construct, "reconfigure_nodes: %s" % msg, fn=rn, node=node)
     adds = 0
     for s, v, t in outs.of("ret"):
-        ev = s.get("ev", ())
+        ev = s.get("#ev", ())
         adds += ev.count("add")
         r2.expect("add" in ev, "normal completion adds the advertised nodes", "AWSElastiCacheHashClient.reconfigure_nodes:no-add", "a normal path of reconfigure_nodes adds no advertised node", fn=rn, witness=fmt_trace(t))
-        r2.expect(s.get("snapshot_before_clear", False), "the old clients are snapshotted before self.clients is cleared", "AWSElastiCacheHashClient.reconfigure_nodes:no-snapshot", "the old clients are not copied before self.clients is cleared: they can no longer be closed or removed from the hasher", fn=rn, witness=fmt_trace(t))
+        r2.expect(s.get("#snapshot_before_clear", False), "the old clients are snapshotted before self.clients is cleared", "AWSElastiCacheHashClient.reconfigure_nodes:no-snapshot", "the old clients are not copied before self.clients is cleared: they can no longer be closed or removed from the hasher", fn=rn, witness=fmt_trace(t))
     if not seen:
         r2.ok("clients, hasher nodes, failing and dead sets are reset together before the first add_server")
     r2.floor("add_server events on normal paths", adds, 1)
@@ -447,18 +447,18 @@ def run(chk):
     # ------------------------------------------------------------------ R3 closing
     r3 = chk.rule("C19.R3", "connections to replaced nodes are closed; the discovery client is closed on every exit")
     for s, v, t in outs.of("ret"):
-        r3.expect(s.get("closed_old", False), "every client of the previous configuration is closed on the normal path", "AWSElastiCacheHashClient.reconfigure_nodes:old-clients-not-closed", "reconfigure_nodes can complete without closing the clients of the previous configuration: their sockets leak", fn=rn, witness=fmt_trace(t))
+        r3.expect(s.get("#closed_old", False), "every client of the previous configuration is closed on the normal path", "AWSElastiCacheHashClient.reconfigure_nodes:old-clients-not-closed", "reconfigure_nodes can complete without closing the clients of the previous configuration: their sockets leak", fn=rn, witness=fmt_trace(t))
     cd = CloseDomain(prog, gnl)
     o2 = Interp(cd, gnl.node, prog).run(Env({}))
     n_ex = 0
     for kind in ("ret", "exc"):
         for s, v, t in o2.of(kind):
-            if not s.get("created", False):
+            if not s.get("#created", False):
                 continue
             n_ex += 1
             if kind == "exc" and v.colour != ORD:
                 continue
-            r3.expect(s.get("closed", False), "_get_nodes_list: %s exit closes the discovery client" % kind, "AWSElastiCacheHashClient._get_nodes_list:discovery-client-not-closed:%s" % kind, "_get_nodes_list can %s without closing the discovery client" % ("return" if kind == "ret" else "raise"), fn=gnl, witness=fmt_trace(t))
+            r3.expect(s.get("#closed", False), "_get_nodes_list: %s exit closes the discovery client" % kind, "AWSElastiCacheHashClient._get_nodes_list:discovery-client-not-closed:%s" % kind, "_get_nodes_list can %s without closing the discovery client" % ("return" if kind == "ret" else "raise"), fn=gnl, witness=fmt_trace(t))
     r3.floor("exits of _get_nodes_list after the client was created", n_ex, 2)
 
     # a client dropped from .clients anywhere in the package must be closed there: nothing else refers to it afterwards,
